@@ -21,6 +21,8 @@ CONSTANTS
   Root = 0
   RootMax = TRUE
   Depth = 3
+  Root2 = 9999
+  Root2Max = TRUE
   KeyMode = "{mode}"
 INVARIANTS ExactValue ExactTasks
 PROPERTY Terminates
